@@ -62,10 +62,29 @@ def run(case: t.Sequence[t.Dict[str, t.Any]], ctx: Ctx) -> t.List[Violation]:
         if expected is not None:
             J.sent[direction].append(expected)
 
+    def bind_probe(i: int, sides: t.Sequence[str] = ("client",)) -> t.Optional[Violation]:
+        # each side lets a bind start exactly when, by its own view, nothing is in progress.
+        # (the server is probed through receive, which is only meaningful when no partial message is buffered,
+        # i.e. at quiescent points)
+        for side, so, mo in (("client", J.c, J.cm), ("server", J.s, J.sm)):
+            if side not in sides or sess.state(so) == "CLOSED":
+                continue
+            can = sess.bind_allowed(so, side)
+            want = mo.state != "CLOSED" and not mo.open
+            if can is not want:
+                return Violation(f"{side}:bind-possible-disagrees-with-operations-in-progress",
+                                 f"after step {i}: a bind is {'possible' if can is True else 'refused' if can is False else can} on the {side} "
+                                 f"although the bookkeeping has state {mo.state} and operations in progress {dict(mo.open)}")
+        return None
+
     def quiescent_check(i: int) -> t.Optional[Violation]:
         if J.pipe["c2s"] or J.pipe["s2c"]:
             return None
         cs, ss = sess.state(J.c), sess.state(J.s)
+        if not (J.discarded["c2s"] or J.discarded["s2c"]):
+            bp = bind_probe(i, ("client", "server"))
+            if bp is not None:
+                return bp
         if not sess.same_state(cs, ss):
             return Violation("quiescent:states-differ", f"after step {i}: client {cs}, server {ss}; sent c2s {kinds(J.sent['c2s'])} s2c {kinds(J.sent['s2c'])}")
         if cs == "CLOSED":
@@ -226,6 +245,8 @@ def run(case: t.Sequence[t.Dict[str, t.Any]], ctx: Ctx) -> t.List[Violation]:
                     if v is None:
                         v = deliver(d, len(J.pipe[d]), i)
             last_was_delivery = True
+        if v is None and op in ("deliver", "flush"):
+            v = bind_probe(i)
         if v is None:
             v = quiescent_check(i)
             if not (J.pipe["c2s"] or J.pipe["s2c"]):
